@@ -152,7 +152,16 @@ def gen_doc(rng):
             body.kids.append(E('foreign', {('xml', 'lang', NS_XML): 'de'}, [E('leaf')], prefix='f', ns='urn:f', nsdecl={'f': 'urn:f'}))
         return [html], 'xml', kind
     how = 'html.parser' if kind == 'iframe' else rng.choice(['html.parser', 'lxml', 'html5lib', 'api'])
-    return [html], how, kind
+    tops = [html]
+    r = rng.random()
+    if r < .12:
+        # an element before <head> inside <html> (html.parser and the API keep it there; the pragma is still the head's)
+        html.kids.insert(0, E(rng.choice(['link', 'p', 'script'])))
+    elif r < .2:
+        html.kids = [k for k in html.kids if k.name != 'head'] + [k for k in html.kids if k.name == 'head']    # head after body
+    if rng.random() < .08 and kind != 'iframe':
+        tops = [E('p', {}, [T('text', 'early')]), html]            # an element before <html> at the top level
+    return tops, how, kind
 
 
 def run_unit(u):
